@@ -375,12 +375,12 @@ func init() {
 			extra := p == 4 || t == 94
 			scen = append(scen, &c18Tree{Tree: engine.Tree{
 				Name: fmt.Sprintf("readfrom-tree-%dp+%d", p, t),
-				Rule: fmt.Sprintf("ReadFrom through %s over a stream of %d packets + %d bytes with the scripted environment: first choice = failing packet write (none, index 0..%d), then at every Read the amount (all that fits, 1, half, up to the next 188-boundary of the stream, +1, -1), a fault (none, error without data, error together with the data) and, with the last byte, EOF separate / attached; deviations from the all-default run <= 4 (thorough 5); same oracle as readfrom-uniform-chunks; non-trivial = execution with at least one deviation", c18Adapters[(p+t)%4], p, t, p-1),
+				Rule: fmt.Sprintf("ReadFrom through %s over a stream of %d packets + %d bytes with the scripted environment: first choice = failing packet write (none, index 0..%d), then at every Read the amount (all that fits, 1, half, up to the next 188-boundary of the stream, +1, -1), a fault (none, error without data, error together with the data) and, with the last byte, EOF separate / attached; deviations from the all-default run <= 6 (thorough 8); same oracle as readfrom-uniform-chunks; non-trivial = execution with at least one deviation", c18Adapters[(p+t)%4], p, t, p-1),
 				Bound: func(r *engine.Run) int {
 					if r.Thorough() {
-						return 5
+						return 8
 					}
-					return 4
+					return 6
 				},
 				Body: c18TreeBody((p+t)%4, p, t),
 			}, thoroughOnly: extra})
